@@ -55,7 +55,7 @@ type Result struct {
 	Extra      map[string]string `json:"extra,omitempty"`
 }
 
-const e1Prelude = "func rec(tag int, v ...interface{}) {}\nfunc pcl(r interface{}) string { return \"\" }\nfunc hk() {}\n"
+const e1Prelude = "func rec(tag int, v ...interface{}) {}\nfunc pcl(r interface{}) string { return \"\" }\nfunc hk() {}\nfunc nc(v interface{}) interface{} { return v }\n"
 
 func (p *Prog) plainSrc() string { return strings.ReplaceAll(p.Src, "§", "") }
 
@@ -138,6 +138,7 @@ var cur *tr.Trace
 func rec(tag int, v ...interface{}) { cur.Rec(tag, v...) }
 func pcl(r interface{}) string     { return tr.PanicClass(r) }
 func hk()                          { cur.Hooks++ }
+func nc(v interface{}) interface{} { return tr.NoCap{V: v} }
 
 type result struct {
 	ID     string   ` + "`json:\"id\"`" + `
